@@ -51,10 +51,16 @@ FileCounts(r) ==
     THEN \A c \in Cats : (r.entries[c] = r.expected[c]) /\ ((r.present[c] /\ c # "qa") => (r.total[c] = r.entries[c]))
     ELSE TRUE
 
+\* ... and the severity headings of the vulnerability part are those of the findings the analysed files have
+FileSeverities(r) ==
+    IF "sev_expected" \in DOMAIN r
+    THEN {r.sev_present[i] : i \in 1 .. Len(r.sev_present)} = {r.sev_expected[i] : i \in 1 .. Len(r.sev_expected)}
+    ELSE TRUE
+
 Accept(r) ==
     CASE r.k = "render" -> AcceptRender(r)
       [] r.k = "same"   -> (Mode = "C13") => (r.bytes_equal /\ r.a = r.b)
-      [] r.k = "file"   -> FilePresence(r) /\ FileCounts(r)
+      [] r.k = "file"   -> FilePresence(r) /\ FileCounts(r) /\ FileSeverities(r)
       [] OTHER          -> FALSE
 
 Init == l = 1 /\ bad = <<>>
